@@ -29,13 +29,15 @@ VARIABLES l, pend,
   ncalls,     \* number of calls made so far
   fnsOf,      \* [key -> set of fn ids supplied by calls made so far]
   starts,     \* set of [key, line] for start-style calls not yet followed by an execution
-  rlc         \* the context of the rate limits has been (or is being) cancelled
-vars == <<running, execs, ncalls, fnsOf, starts, rlc>>
+  rlc,        \* the context of the rate limits has been (or is being) cancelled
+  fnExec,     \* [fn -> the execution that ran the function supplied by call fn]
+  answered    \* fn ids of the (non start-style) calls that have received their outcome
+vars == <<running, execs, ncalls, fnsOf, starts, rlc, fnExec, answered>>
 tvars == <<vars, l, pend>>
 Idle == [st |-> "idle", line |-> 0]
 
 TVInit == /\ l = 1 /\ pend = [g \in GS |-> Idle]
-          /\ running = <<>> /\ execs = <<>> /\ ncalls = 0 /\ fnsOf = <<>> /\ starts = {} /\ rlc = FALSE
+          /\ running = <<>> /\ execs = <<>> /\ ncalls = 0 /\ fnsOf = <<>> /\ starts = {} /\ rlc = FALSE /\ fnExec = <<>> /\ answered = {}
           /\ TLCSet(1, 0)
 
 Cur == TLog[l]
@@ -46,7 +48,7 @@ Put(f, k, v) == [x \in DOMAIN f \cup {k} |-> IF x = k THEN v ELSE f[x]]
 
 TReset ==
   /\ IsEv("reset") /\ Consume
-  /\ pend' = [g \in GS |-> Idle] /\ running' = <<>> /\ execs' = <<>> /\ ncalls' = 0 /\ fnsOf' = <<>> /\ starts' = {} /\ rlc' = FALSE
+  /\ pend' = [g \in GS |-> Idle] /\ running' = <<>> /\ execs' = <<>> /\ ncalls' = 0 /\ fnsOf' = <<>> /\ starts' = {} /\ rlc' = FALSE /\ fnExec' = <<>> /\ answered' = {}
 
 TCall ==
   /\ IsEv("call") /\ Consume /\ pend[Cur.g].st = "idle"
@@ -57,7 +59,7 @@ TCall ==
             /\ pend' = [pend EXCEPT ![Cur.g] = [st |-> "start", line |-> l]]
        ELSE /\ starts' = starts
             /\ pend' = [pend EXCEPT ![Cur.g] = [st |-> "called", line |-> l]]
-  /\ UNCHANGED <<running, execs, rlc>>
+  /\ UNCHANGED <<running, execs, rlc, fnExec, answered>>
 
 \* C09: an execution starts only when no other execution of its key is between wstart and wend
 \* C10: executions never outnumber calls; the function was supplied by a call of this key
@@ -66,26 +68,30 @@ TWStart ==
   /\ Chk("mutex") => Get(running, Cur.key, 0) = 0
   /\ Cardinality(DOMAIN execs) + 1 <= ncalls
   /\ Cur.fn \in Get(fnsOf, Cur.key, {})
+  \* the executed function was supplied by one of the callers coalesced into this execution: a call joins exactly one
+  \* execution, so its function runs at most once, and never after the call has been answered
+  /\ Cur.fn \notin DOMAIN fnExec /\ Cur.fn \notin answered
+  /\ fnExec' = Put(fnExec, Cur.fn, Cur.e)
   /\ running' = Put(running, Cur.key, Cur.e)
   /\ execs' = Put(execs, Cur.e, [key |-> Cur.key, fn |-> Cur.fn, line |-> l, resolved |-> FALSE, ended |-> FALSE, mode |-> Cur.mode,
                                   rate |-> Cur.rate_us, fail |-> Cur.fail, inner |-> Cur.mode = "value"])
   /\ starts' = {s \in starts : s.key # Cur.key}       \* every earlier Start of this key is now followed by an execution
-  /\ UNCHANGED <<pend, ncalls, fnsOf, rlc>>
+  /\ UNCHANGED <<pend, ncalls, fnsOf, rlc, answered>>
 
 \* the inner wrapper runs inside the outer one (wrappers: left -> right is inner -> outer), once, before the work resolves
 TWLayer ==
   /\ IsEv("wlayer") /\ Consume
   /\ Cur.e \in DOMAIN execs /\ ~execs[Cur.e].inner /\ ~execs[Cur.e].resolved /\ ~execs[Cur.e].ended
   /\ execs' = [execs EXCEPT ![Cur.e].inner = TRUE]
-  /\ UNCHANGED <<pend, running, ncalls, fnsOf, starts, rlc>>
+  /\ UNCHANGED <<pend, running, ncalls, fnsOf, starts, rlc, fnExec, answered>>
 
-TRlCancel == IsEv("rlcancel") /\ Consume /\ rlc' = TRUE /\ UNCHANGED <<pend, running, execs, ncalls, fnsOf, starts>>
+TRlCancel == IsEv("rlcancel") /\ Consume /\ rlc' = TRUE /\ UNCHANGED <<pend, running, execs, ncalls, fnsOf, starts, fnExec, answered>>
 
 TWResolved ==
   /\ IsEv("wresolved") /\ Consume
   /\ Cur.e \in DOMAIN execs /\ execs[Cur.e].inner /\ ~execs[Cur.e].resolved
   /\ execs' = [execs EXCEPT ![Cur.e].resolved = TRUE]
-  /\ UNCHANGED <<pend, running, ncalls, fnsOf, starts, rlc>>
+  /\ UNCHANGED <<pend, running, ncalls, fnsOf, starts, rlc, fnExec, answered>>
 
 TWEnd ==
   /\ IsEv("wend") /\ Consume
@@ -97,13 +103,15 @@ TWEnd ==
   /\ (execs[Cur.e].rate = 0) => execs[Cur.e].inner
   /\ execs' = [execs EXCEPT ![Cur.e].ended = TRUE]
   /\ running' = IF Get(running, execs[Cur.e].key, 0) = Cur.e THEN Put(running, execs[Cur.e].key, 0) ELSE running
-  /\ UNCHANGED <<pend, ncalls, fnsOf, starts, rlc>>
+  /\ UNCHANGED <<pend, ncalls, fnsOf, starts, rlc, fnExec, answered>>
 
 \* C10: the outcome is the outcome of an execution of the same key that began after the call was made
 Answers(e, g) ==
   /\ e \in DOMAIN execs
   /\ execs[e].key = TLog[pend[g].line].key
   /\ execs[e].line > pend[g].line
+  \* if the function this call supplied was executed at all, then by the execution that answers the call
+  /\ Get(fnExec, TLog[pend[g].line].fn, e) = e
 
 TRet ==
   /\ IsEv("ret") /\ Consume
@@ -120,7 +128,8 @@ TRet ==
            /\ rlc /\ \E e \in DOMAIN execs : Answers(e, g) /\ execs[e].rate > 0 /\ ~execs[e].inner
      /\ Cur.closed                                              \* outcome channels are closed after the outcome
      /\ pend' = [pend EXCEPT ![g] = Idle]
-  /\ UNCHANGED vars
+     /\ answered' = IF pend[g].st = "called" THEN answered \cup {TLog[pend[g].line].fn} ELSE answered
+  /\ UNCHANGED <<running, execs, ncalls, fnsOf, starts, rlc, fnExec>>
 
 TRelease == IsEv("release") /\ Consume /\ UNCHANGED <<vars, pend>>
 
